@@ -29,7 +29,7 @@ from pipefunc.cache import DiskCache, HybridCache, LRUCache, SimpleCache
 
 PID = "C14"
 PROPS = ["PfModel.Props.C14", "PfModel.Props.C14Shared", "PfModel.Props.C14Score", "PfModel.Props.C14Clear", "PfModel.Props.C14Ties",
-         "PfModel.Props.C14Access"]
+         "PfModel.Props.C14Access", "PfModel.Props.C14Retain"]
 DRIVER = "C14"
 RULE = ("(1) explicit-state exploration: breadth-first over the abstract states of the Lean model itself (driver C14Explore; used "
         "only to find a shortest history to every reachable state, never for a verdict), 3-4 keys, max_size 1..3; every "
